@@ -7,7 +7,7 @@
    unzip (zip b) = Some b, zip never returns the empty string); a stream is ANY list of chunks
    whose concatenation is the bytes on the wire.  [has_c] = a cipher is installed. *)
 From Coq Require Import ZArith NArith List Bool.
-From FV Require Import Lib.NList Lib.BE Lib.Crc32 C01.Model C01.RunLib C01.ProofsIO C01.ProofsV1 C01.ProofsV2 C01.Proofs.
+From FV Require Import Generated.CodecHeader Lib.GoSem Lib.NList Lib.BE Lib.Crc32 C01.Model C01.RunLib C01.ProofsIO C01.ProofsV1 C01.ProofsV2 C01.Proofs C01.Source.
 Import ListNotations.
 Open Scope N_scope.
 
@@ -184,6 +184,40 @@ Theorem c01_lendata_limit : forall d,
   /\ (lenN d < 65533 -> fst (write_len_data d) = Some (lenN d + 2)).
 Proof. exact lendata_limit. Qed.
 Print Assumptions c01_lendata_limit.
+
+(* tie to the source: the header byte accessors regenerated from codec/v1_header.go and
+   v2_header.go on every run (Generated/CodecHeader.v, tools/gofunc) read the bytes the model
+   reads when decoding, and on the model's emitted frame return the caller's type, the stored
+   flag and the reference count *)
+Theorem c01_src_header_v1 : forall h, hs1 <= lenN h ->
+  go_V1Header_Type (zbytes h) = GoSem.Ok (Z.of_N (byte_at 2 h))
+  /\ go_V1Header_Flag (zbytes h) = GoSem.Ok (Z.of_N (byte_at 3 h)).
+Proof. exact src_header_v1. Qed.
+Print Assumptions c01_src_header_v1.
+
+Theorem c01_src_header_v2 : forall h, hs2 <= lenN h ->
+  go_V2Header_Type (zbytes h) = GoSem.Ok (Z.of_N (byte_at 3 h))
+  /\ go_V2Header_Flag (zbytes h) = GoSem.Ok (Z.of_N (byte_at 4 h))
+  /\ go_V2Header_RefCount (zbytes h) = GoSem.Ok (Z.of_N (byte_at 5 h)).
+Proof. exact src_header_v2. Qed.
+Print Assumptions c01_src_header_v2.
+
+Theorem c01_src_written_v1 : forall enc zip thr has_c p n ws p',
+  p_flag p < 256 -> clean_flags p ->
+  write_v1 enc zip thr has_c p = mkWres (Some n) ws p' ->
+  go_V1Header_Type (zbytes (concat ws)) = GoSem.Ok (Z.of_N (u8_of_z (p_typ p)))
+  /\ go_V1Header_Flag (zbytes (concat ws)) = GoSem.Ok (Z.of_N (p_flag p')).
+Proof. exact src_written_v1. Qed.
+Print Assumptions c01_src_written_v1.
+
+Theorem c01_src_written_v2 : forall enc zip thr has_c p n ws p',
+  p_flag p < 256 -> clean_flags p ->
+  write_v2 enc zip thr has_c p = mkWres (Some n) ws p' ->
+  go_V2Header_Type (zbytes (concat ws)) = GoSem.Ok (Z.of_N (u8_of_z (p_typ p)))
+  /\ go_V2Header_Flag (zbytes (concat ws)) = GoSem.Ok (Z.of_N (p_flag p'))
+  /\ go_V2Header_RefCount (zbytes (concat ws)) = GoSem.Ok (Z.of_N (lenN (p_refers p))).
+Proof. exact src_written_v2. Qed.
+Print Assumptions c01_src_written_v2.
 
 (* ---------------------------------------------------------------------------------- *)
 (* non-vacuity: an environment meeting [codec_env] (xor cipher, a toy "zlib" that prefixes a
